@@ -137,9 +137,9 @@ func (g *engGun) Shoot(core.Ammo) {
 
 type engSnap struct {
 	lines, bad, dup, order, miss, closed, disc int
-	dropped                             int64
-	err                                 string
-	aggReturned                         bool
+	dropped                                    int64
+	err                                        string
+	aggReturned                                bool
 }
 
 func (p *engPool) snapshot(pre int64) engSnap {
